@@ -4,9 +4,10 @@
    (which event calls which method, and `permitted` = the event orders the API allows: startConnecting at most
    once, a Deferred / disconnect watcher / timer fires only if it exists, reset/stopConnecting at any time,
    also before the Tub has started the Reconnector). *)
-From Coq Require Import QArith Qminmax List.
+From Coq Require Import ZArith QArith Qminmax List.
 Import ListNotations.
-Require Import Verif.lib.ReconnectorBase Verif.gen.ReconnectorGen Verif.lib.Reconnector Verif.lib.ReconnectorProofs.
+Require Import Verif.lib.ReconnectorBase Verif.gen.ReconnectorGen Verif.lib.Reconnector Verif.lib.ReconnectorProofs
+               Verif.lib.ReconnectorTub Verif.lib.ReconnectorTubProofs.
 Local Open Scope Q_scope.
 
 (* "A Reconnector that has been started and not stopped ..." is exactly _active *)
@@ -108,3 +109,86 @@ Theorem C16_silent_after_stop : forall evs1 evs2,
   Forall (fun o => silent o = true) (snd r) /\ active (fst r) = false /\ timer (fst r) = None /\ leaked (fst r) = 0%nat.
 Proof. exact silent_after_stop. Qed.
 Print Assumptions C16_silent_after_stop.
+
+(* "a Deferred / disconnect watcher / timer fires only if it exists" (the `enabled` of every theorem above) is not a
+   modelling assumption about counters: the ledger  led_run  is computed ONLY from what the translated methods did to
+   their environment (getReference called, watcher registered, callLater, cancel) and from what has fired since; it
+   always equals the model's counters, so an event of the environment is enabled exactly when the methods created
+   such a thing and it has neither fired nor been cancelled *)
+Theorem C16_enabled_is_ledger : forall evs, permitted init_state evs ->
+  let s := fst (run init_state evs) in
+  match led_run init_state (0, 0, 0)%Z evs with (d, w, t) =>
+    (forall u, enabled s (AttemptOk u) = true <-> (0 < d)%Z) /\ (forall z, enabled s (AttemptFail z) = true <-> (0 < d)%Z) /\
+    (enabled s Lost = true <-> (0 < w)%Z) /\ (enabled s TimerExpired = true <-> (0 < t)%Z) /\
+    d = Z.of_nat (inflight s) /\ w = Z.of_nat (watching s) /\ t = Z.of_nat (timer_count s)
+  end.
+Proof. exact enabled_is_ledger. Qed.
+Print Assumptions C16_enabled_is_ledger.
+
+(* ====================================================================================================================
+   The Tub side (pb.py).  Tub.connectTo, the Reconnector parts of Tub.startService / Tub.stopService and
+   Tub._removeReconnector are translated on every run (m_tub_* of gen/ReconnectorGen.v); lib/ReconnectorTub.v is the
+   dispatcher of a Tub with ALL the Reconnectors it created: TConnectTo | TStartService | TStopService | TTurn (the
+   eventual queue delivers a queued startConnecting) | TRc i e (event e <> Start of Reconnector i).  startConnecting is
+   no longer an event somebody may issue: it happens where the translated Tub methods call it. *)
+
+(* the hypothesis `permitted` of all the theorems above ("the event orders the API allows": startConnecting at most
+   once per Reconnector and only while it has no Tub, ...) is what a Tub really gives each of its Reconnectors:
+   for every permitted Tub-level history and every Reconnector j, the events j takes (with the Start the Tub's
+   connectTo / eventual queue gives it, and the Stop of Tub.stopService) form a permitted history, j's state is the
+   run of it from __init__'s state, and what j did to its environment are the outputs of that run.  So every theorem
+   of this file holds for every Reconnector of every Tub, by composition. *)
+Theorem C16_tub_refines : forall h j, tpermitted tub_init h ->
+  permitted init_state (proj j (thistory tub_init h)) /\
+  rc_at (fst (trun tub_init h)) j = fst (run init_state (proj j (thistory tub_init h))) /\
+  tagged j (snd (trun tub_init h)) = snd (run init_state (proj j (thistory tub_init h))).
+Proof. exact tub_refines. Qed.
+Print Assumptions C16_tub_refines.
+
+(* first sentence, for every Reconnector of a Tub, whatever the Tub and its other Reconnectors do *)
+Theorem C16_tub_one_activity : forall h j, tpermitted tub_init h ->
+  let s := rc_at (fst (trun tub_init h)) j in
+  leaked s = 0%nat /\
+  (active s = true -> (inflight s + watching s + timer_count s = 1)%nat /\ info_agrees s) /\
+  (active s = false -> timer s = None) /\
+  (active s = true <-> (tub s = true /\ stopped s = false)).
+Proof. exact tub_one_activity. Qed.
+Print Assumptions C16_tub_one_activity.
+
+(* last sentence, inside a Tub: after stopConnecting of Reconnector j, j is silent for every continuation of the
+   Tub-level history (other Reconnectors' events, connectTo, startService delivering its queued start, stopService) *)
+Theorem C16_tub_rc_silent_after_stop : forall h1 h2 j,
+  tpermitted tub_init (h1 ++ TRc j Stop :: h2) ->
+  let t1 := fst (trun tub_init (h1 ++ [TRc j Stop])) in
+  Forall (fun o => silent o = true) (tagged j (snd (trun t1 h2))) /\
+  active (rc_at (fst (trun t1 h2)) j) = false /\ timer (rc_at (fst (trun t1 h2)) j) = None.
+Proof. exact tub_rc_silent_after_stop. Qed.
+Print Assumptions C16_tub_rc_silent_after_stop.
+
+(* "All my Reconnector objects will be shut down when the Tub is stopped" (Tub.connectTo): during Tub.stopService
+   and for ever after, NO Reconnector of the Tub -- started, queued, waiting, connecting or connected -- invokes its
+   callback, starts an attempt, registers a watcher or sets a timer; all are inactive without a timer *)
+Theorem C16_tub_silent_after_stopService : forall h1 h2,
+  tpermitted tub_init (h1 ++ TStopService :: h2) ->
+  let r := trun (fst (trun tub_init h1)) (TStopService :: h2) in
+  Forall (fun p : tout => silent (snd p) = true) (snd r) /\
+  (forall j, active (rc_at (fst r) j) = false /\ timer (rc_at (fst r) j) = None) /\
+  t_list (fst r) = None.
+Proof. exact tub_silent_after_stopService. Qed.
+Print Assumptions C16_tub_silent_after_stopService.
+
+(* Tub.reconnectors holds exactly the Reconnectors that have not (been stopped and started), each once; on a running
+   Tub every Reconnector has been started or has its startConnecting queued (Tub.startService starts the queued
+   ones); on a Tub that is not running none has been started *)
+Theorem C16_tub_membership : forall h, tpermitted tub_init h ->
+  let t := fst (trun tub_init h) in
+  match t_list t with
+  | Some l => t_shut t = false /\ NoDup l /\
+              forall i, In i l <-> ((i < List.length (t_rcs t))%nat /\ (stopped (rc_at t i) && tub (rc_at t i))%bool = false)
+  | None => t_shut t = true
+  end /\
+  (t_running t = true -> t_shut t = false -> forall i, (i < List.length (t_rcs t))%nat ->
+     tub (rc_at t i) = true \/ In i (t_queue t)) /\
+  (t_running t = false -> forall i, tub (rc_at t i) = false).
+Proof. exact tub_membership. Qed.
+Print Assumptions C16_tub_membership.
